@@ -4,13 +4,14 @@ set -e
 B=$1; HERE="$(cd "$(dirname "$0")/.." && pwd)"
 python3 "$HERE/harness/gen_api.py" >/dev/null
 SRC="$HERE/harness/main.c $HERE/harness/rec.c $HERE/harness/gen/api_glue.c $(ls $HERE/harness/drv_*.c) $HERE/harness/util.h"
-STAMP=$(cat $SRC $HERE/harness/rec.h $HERE/harness/util.h $HERE/harness/drivers.def $HERE/harness/probe.c | sha256sum | cut -c1-16)
+STAMP=$(cat $SRC $HERE/harness/rec.h $HERE/harness/util.h $HERE/harness/drivers.def $HERE/harness/probe.c $HERE/lib/mapranges.py | sha256sum | cut -c1-16)
 if [ -f "$B/verif-hx" ] && [ "$(cat $B/verif-hx.stamp 2>/dev/null)" = "$STAMP" ]; then exit 0; fi
 CC=${HX_CC:-gcc}; FL=${HX_CFLAGS:--O1 -g}
 ls $HERE/harness/drv_*.c | xargs -P 16 -I{} sh -c "$CC $FL -w -DMPIR_VERIF -I$B -I$HERE/harness -c {} -o $B/hx_\$(basename {} .c).o"
 $CC $FL -w -DMPIR_VERIF -I$B -I$HERE/harness -c $HERE/harness/main.c -o $B/hx_main.o
 $CC $FL -w -DMPIR_VERIF -I$B -I$HERE/harness -c $HERE/harness/rec.c -o $B/hx_rec.o
 $CC $FL -w -DMPIR_VERIF -I$B -I$HERE/harness -c $HERE/harness/gen/api_glue.c -o $B/hx_api_glue.o
-$CC $FL -no-pie -o $B/verif-hx $B/hx_main.o $B/hx_rec.o $B/hx_api_glue.o $(ls $HERE/harness/drv_*.c | sed "s#.*/drv_\(.*\)\.c#$B/hx_drv_\1.o#") $B/.libs/libmpir.a -lm -lpthread
+$CC $FL -no-pie -Wl,-Map=$B/verif-hx.map -o $B/verif-hx $B/hx_main.o $B/hx_rec.o $B/hx_api_glue.o $(ls $HERE/harness/drv_*.c | sed "s#.*/drv_\(.*\)\.c#$B/hx_drv_\1.o#") $B/.libs/libmpir.a -lm -lpthread
+python3 $HERE/lib/mapranges.py $B/verif-hx.map $B/verif-hx > $B/verif-hx.gw
 $CC -O0 -w -DMPIR_VERIF -I$B -o $B/verif-probe $HERE/harness/probe.c
 echo $STAMP > $B/verif-hx.stamp
